@@ -1,5 +1,5 @@
 (* XmlFmtProofsB -- C08: the output is free of placeholder characters and uses the diff namespace
-   only as documented (text_tags = [], use_replace = false).
+   only as documented (text_tags = [], with or without use_replace).
 
    * [out_clean T]   no private-use character in any tag, attribute name, attribute value, text or tail of T;
                      an element in the diff namespace is diff:insert / diff:delete / diff:replace; an attribute in
@@ -11,7 +11,7 @@
 From Coq Require Import List NArith ZArith Bool Arith Lia.
 Import ListNotations.
 Require Import XV.Str XV.Json XV.TextFormat XV.Forest XV.Matcher XV.Differ XV.Path XV.WF XV.AttrProofs XV.XmlFmt XV.Projections
-               XV.XmlFmtProofs0 XV.XmlFmtProofs1 XV.XmlFmtProofs2 XV.XmlFmtProofs3 XV.XmlFmtProofs4 XV.XmlFmtProofs5.
+               XV.XmlFmtProofs0 XV.XmlFmtProofs1 XV.XmlFmtProofs2 XV.XmlFmtProofsR2 XV.XmlFmtProofs3 XV.XmlFmtProofs4 XV.XmlFmtProofs5.
 Require XV.Placeholder XV.PlaceholderUndo.
 Require XV.DMP XV.DMPBase.
 Local Open Scope nat_scope.
@@ -239,23 +239,35 @@ End StepClean.
 (* ------------------------------------------------------------------ *)
 (** * finalize gives a clean tree *)
 
-Lemma exp_clean d : Forall plainseg d -> plain (fst (exp d)) /\ forallb out_clean (snd (exp d)) = true.
+Section WithS.
+Variable S : pstate.
+Hypothesis HS : tinv S.
+
+Lemma exp_clean d : Forall (plainseg S) d -> plain (fst (exp d)) /\ forallb out_clean (snd (exp d)) = true.
 Proof.
-  induction 1 as [|[o t] d Hsg _ [IH1 IH2]]; cbn [exp]; [split; reflexivity|].
-  destruct (exp d) as [l ws]. cbn [fst snd] in *. unfold plainseg in Hsg. cbn [snd] in Hsg.
-  assert (Hw : forall name, In (dname name) documented_elems -> plain name -> out_clean (welem name t l) = true).
-  { intros name Hin Hname. unfold welem. cbn [out_clean forallb]. fold (dname name).
+  induction 1 as [|pc d Hsg _ [IH1 IH2]]; cbn [exp]; [split; reflexivity|].
+  destruct (exp d) as [l ws]. cbn [fst snd] in *. unfold plainseg in Hsg.
+  assert (Hw : forall name t, In (dname name) documented_elems -> plain name -> plain t -> out_clean (welem name t l) = true).
+  { intros name t Hin Hname Ht. unfold welem. cbn [out_clean forallb]. fold (dname name).
     rewrite (plain_dname name Hname). unfold name_ok. rewrite is_diff_dname. cbn [negb orb].
     apply smem_In in Hin. rewrite Hin. cbn [andb]. rewrite IH1, !andb_true_r.
-    rewrite otxt_ornone. exact Hsg. }
-  destruct o; cbn [fst snd forallb]; (split; [try reflexivity|]).
-  - rewrite Hw, IH2; [reflexivity|cbn; tauto|reflexivity].
-  - rewrite Hw, IH2; [reflexivity|cbn; tauto|reflexivity].
-  - apply plain_app; auto.
-  - exact IH2.
+    rewrite otxt_ornone. exact Ht. }
+  destruct pc as [[o t]|cc new old]; cbn [piece_ok snd] in Hsg.
+  - destruct o; cbn [fst snd forallb]; (split; [try reflexivity|]).
+    + rewrite Hw, IH2; [reflexivity|cbn; tauto|reflexivity|exact Hsg].
+    + rewrite Hw, IH2; [reflexivity|cbn; tauto|reflexivity|exact Hsg].
+    + apply plain_app; auto.
+    + exact IH2.
+  - destruct Hsg as (Hn & Ho & _). cbn [fst snd forallb]. split; [reflexivity|]. rewrite IH2, andb_true_r.
+    unfold relw. cbn [out_clean forallb]. fold (dname Placeholder.s_replace).
+    rewrite (plain_dname Placeholder.s_replace eq_refl). unfold name_ok at 1. rewrite is_diff_dname. cbn [negb orb].
+    change (smem (dname Placeholder.s_replace) documented_elems) with true. cbn [andb].
+    rewrite IH1, !andb_true_r, otxt_ornone. unfold attr_clean. cbn [fst snd].
+    change (plainb s_old_text) with true. change (name_ok documented_attrs s_old_text) with true.
+    cbn [andb]. unfold plain in Ho, Hn. rewrite Ho, Hn. reflexivity.
 Qed.
 
-Lemma out_clean_exp : forall W, wclean W -> forall W' sibs, Exp W W' sibs ->
+Lemma out_clean_exp : forall W, wclean W -> forall W' sibs, Exp S W W' sibs ->
   out_clean W' = true /\ forallb out_clean sibs = true.
 Proof.
   induction W as [tag attrs text tail kids IH] using Placeholder.xtree_ind2.
@@ -270,13 +282,14 @@ Proof.
 Qed.
 
 (* C08 after the handlers: finalize completes (no IndexError) and the output is clean *)
-Theorem finalize_clean W : winv W -> wclean W ->
-  exists T, finalize ph_init W = FOk T /\ out_clean T = true.
+Theorem finalize_clean W : winv S W -> wclean W ->
+  exists T, finalize S W = FOk T /\ out_clean T = true.
 Proof.
   intros HW HC.
-  destruct (undo_exp W (wi_run _ HW) (Placeholder.default_fuel F0 W) false) as (W' & sibs & E & X).
+  destruct (undo_exp S HS W (wi_run _ _ HW) (Placeholder.default_fuel S W) false) as (W' & sibs & E & X).
   - unfold Placeholder.default_fuel, Placeholder.UNDO_DEPTH. pose proof (xheight_le_tsize W). lia.
-  - right. apply (wi_tail _ HW).
+  - right. apply (wi_tail _ _ HW).
   - exists W'. unfold finalize, Placeholder.undo_tree, Placeholder.undo_tree_fuel. rewrite E. cbn [Placeholder.bind fst of_ph].
     split; [reflexivity|]. apply (out_clean_exp W HC W' sibs X).
 Qed.
+End WithS.
